@@ -204,6 +204,8 @@ class Analysis:
                 isinstance(node.lvalue, pr.ID):
             rvalue = node.rvalue.expr if isinstance(
                 node.rvalue, pr.Cast) else node.rvalue
+            if rvalue is not node.rvalue:  # cast of the whole right side
+                node = pr.Assignment(node.op, node.lvalue, rvalue)
             if isinstance(rvalue, pr.BinaryOp):
                 return Analysis.binary_op(index, node)
             if isinstance(rvalue, pr.Constant):
